@@ -80,6 +80,20 @@ func checkC14(c *core.Ctx) {
 	c.Assume("theory.ConvertPC / SpellingsOf (pitch-class arithmetic)", "output order is not compared here (C12)")
 	c.Exhaustive(!c.Quick()) // the space the property names (chains up to length 6) is swept in thorough
 	keys := theory.Supported()
+	// "every supported key": keys beyond the 28 that `info key list` reports (C13 allows more) take part too
+	if l := run(c, nil, "info", "key", "list"); l.OK() {
+		if li, err := yamlList(l.Stdout); err == nil {
+			for _, e := range li {
+				m, _ := e.(map[string]any)
+				ks := asStr(m["key"])
+				if k, err := theory.ParseKey(ks); err == nil && !theory.IsSupported(ks) && k.Signature() >= -7 && k.Signature() <= 7 {
+					theory.ExtraSupported = append(theory.ExtraSupported, k)
+					keys = append(keys, k)
+				}
+			}
+		}
+	}
+	c.Extra("supported_keys_reported_by_crd", len(keys))
 	chains := chainsUpTo(L)
 	c.Extra("chain_length_swept", L)
 	c.Extra("swept_space", len(keys)*len(chains))
